@@ -410,6 +410,9 @@ def run_c05(prop, tier, seed, t0):
     progs, reps = (40, 150) if quick else (400, 1500)
     jobs = conc_native("rel", seed, n, progs, reps, "stress-rel")
     jobs += conc_native("dbg", seed + 1, n, progs // 2, reps, "stress-dbg")
+    # the same programs on real threads under ASan (+LSan): a read of storage freed by another thread, a second
+    # free or a block never freed is trapped exactly, not only when the ledger's poison happens to be read
+    jobs += conc_native("asan-rel", seed + 2, n // 2, progs // 2, 40 if quick else 400, "asan-rel", kind="asan", env=ASAN_ENV)
     jobs += conc_miri(seed, 4 if quick else 12, 14 if quick else 40, "0..12" if quick else "0..64", "miri")
     agg = Agg(prop)
     for j in run_jobs(jobs):
@@ -418,7 +421,8 @@ def run_c05(prop, tier, seed, t0):
              "zero_copy_exclusive_winners": agg.counters.get("zero_copy_winners", 0)}
     if agg.counters.get("cas_lost_executions", 0) == 0:
         agg.inconclusive.append("the lost-promotion-race path was never observed in this run")
-    return finish(prop, tier, seed, agg, t0, "exploration", CONC_RULE, extra=extra, min_eval_key="executions",
+    rule = CONC_RULE + " C05 runs them natively on the ledger allocator (release and debug), natively under ASan+LSan (ledger off: use-after-free, double free and leaks trapped by the sanitizer) and under Miri with many schedule seeds."
+    return finish(prop, tier, seed, agg, t0, "exploration", rule, extra=extra, min_eval_key="executions",
                   assumptions=["sampled schedules only (OS scheduler + injected delays natively, Miri's randomised scheduler with weak-memory emulation per seed)", "thread spawn/barrier/join are the only synchronisation added by the harness"])
 
 
